@@ -41,12 +41,12 @@ theorem nary_tail {sc o op p lv} (hbo : binOf (.p o) = some (op, lv)) (hlv : lv 
     simp only [hbo, hm, if_true]
     have hnt' : headAll (noTighterT lv) (tkTail sc o p xs ++ rest) = true :=
       noTighter_tkTail hbo (Nat.le_refl _) xs hnt
-    have h1 : parseBin n (lv + 1) (parenT (decide (x.prec ≥ p)) (tk sc x) ++ (tkTail sc o p xs ++ rest))
+    have h1 : parseBin n (lv + 1) (parenT (decide ((precF x) ≥ p)) (tk sc x) ++ (tkTail sc o p xs ++ rest))
         = some (eraseC sc x, tkTail sc o p xs ++ rest) := by
       refine opl hx ?_ (noTighter_postStop hnt') (k := 1) (loop_stop (by omega) hnt' (by omega)) (by omega)
       intro hpp
       simp at hpp
-      have := lvP_strict p hp.2 x.prec hpp hp.1
+      have := lvP_strict p hp.2 (precF x) hpp hp.1
       exact ⟨by omega, by omega, noTighter_tkTail hbo (by omega) xs hnt⟩
     rw [h1]
     simp only []
@@ -54,11 +54,11 @@ theorem nary_tail {sc o op p lv} (hbo : binOf (.p o) = some (op, lv)) (hlv : lv 
     simpa [eraseLC] using hloop
 
 theorem rt_nary {sc o op p} (hbo : binOf (.p o) = some (op, lvP p)) (hp : 4 ≤ p ∧ p ≤ 12)
-    (e : Expr) (a : Expr) (l : List Expr) (hprec : e.prec = p)
-    (htk : tk sc e = parenT (decide (a.prec ≥ p)) (tk sc a) ++ tkTail sc o p l)
+    (e : Expr) (a : Expr) (l : List Expr) (hprec : (precF e) = p)
+    (htk : tk sc e = parenT (decide ((precF a) ≥ p)) (tk sc a) ++ tkTail sc o p l)
     (her : eraseC sc e = (eraseLC sc l).foldl (fun x y => PT.bin op x y) (eraseC sc a))
     (ha : RT sc a) (hl : ∀ x ∈ l, RT sc x) : RT sc e := by
-  have hbin : ∀ m rest k res F, m ≤ lvP e.prec → headAll (noTighterT (lvP e.prec)) rest = true →
+  have hbin : ∀ m rest k res F, m ≤ lvP (precF e) → headAll (noTighterT (lvP (precF e))) rest = true →
       loopBin k m (eraseC sc e) rest = some res → k + 6 * (tk sc e).length + 1 ≤ F →
       parseBin F m (tk sc e ++ rest) = some res := by
     intro m rest k res F hm hnt hloop hF
@@ -71,13 +71,13 @@ theorem rt_nary {sc o op p} (hbo : binOf (.p o) = some (op, lvP p)) (hp : 4 ≤ 
     refine opl ha ?_ (noTighter_postStop (hnt' _ (Nat.le_refl _))) (k := k + 6 * (tkTail sc o p l).length) ?_ (by omega)
     · intro hpp
       simp at hpp
-      have := lvP_strict p hp.2 a.prec hpp hp.1
+      have := lvP_strict p hp.2 (precF a) hpp hp.1
       exact ⟨by omega, by omega, hnt' _ (by omega)⟩
     · refine nary_tail hbo rfl hp l hl _ m rest k res _ hm hnt ?_ (Nat.le_refl _)
       rw [← her]; exact hloop
   refine ⟨full_of_bin (by omega) hbin, fun _ => hbin, fun h => by omega, ?_⟩
   rw [htk]
-  obtain ⟨t, r, h1, h2⟩ := parenT_head (p := decide (a.prec ≥ p)) ha.hd
+  obtain ⟨t, r, h1, h2⟩ := parenT_head (p := decide ((precF a) ≥ p)) ha.hd
   exact ⟨t, _, by rw [h1]; rfl, h2⟩
 
 theorem rt_sum {sc a l} (ha : RT sc a) (hl : ∀ x ∈ l, RT sc x) : RT sc (.sum (a :: l)) :=
@@ -181,7 +181,7 @@ theorem rt_call {sc f dt a as} (ha : RT sc a) (hall : ∀ x ∈ a :: as, FullRT 
     simp only []
     rw [post_stop (by omega) hps]
     simp [eraseC]
-  have hprec : (Expr.call f dt (a :: as)).prec ≤ 2 := by simp [Expr.prec]
+  have hprec : (precF (Expr.call f dt (a :: as))) ≤ 2 := by simp [precF, Expr.prec]
   have hbin := bin_of_un hprec hun
   exact ⟨full_of_bin (by omega) hbin, fun _ => hbin, fun _ => hun, ⟨_, _, tk_call .., by simp⟩⟩
 
@@ -199,7 +199,7 @@ theorem rt_idx {sc arr dt a as} (hall : ∀ x ∈ a :: as, FullRT sc x) :
       show ¬ (Tok.id arr = Tok.p P.lpar) by simp, if_false, atomOf]
     rw [ix_parse (a :: as) (by simp) hall _ rest n hps (by omega)]
     simp [eraseC]
-  have hprec : (Expr.idx arr dt (a :: as)).prec ≤ 2 := by simp [Expr.prec]
+  have hprec : (precF (Expr.idx arr dt (a :: as))) ≤ 2 := by simp [precF, Expr.prec]
   have hbin := bin_of_un hprec hun
   exact ⟨full_of_bin (by omega) hbin, fun _ => hbin, fun _ => hun, ⟨_, _, tk_idx .., by simp⟩⟩
 
@@ -209,10 +209,10 @@ theorem rt_idx {sc arr dt a as} (hall : ∀ x ∈ a :: as, FullRT sc x) :
 /-- a real part as an expression: `Neg` of the magnitude if negative -/
 def realE (x : Rat) : Expr := if x < 0 then .neg (.litF (-x) 0 false) else .litF x 0 false
 
-theorem realE_prec_lt (x : Rat) : (realE x).prec < 4 := by
-  unfold realE; split <;> simp [Expr.prec]
+theorem realE_prec_lt (x : Rat) : (precF (realE x)) < 4 := by
+  unfold realE; split <;> simp [precF, Expr.prec]
 
-theorem rt_realE {sc x} (h : numShape (fmtFloat16 (if x < 0 then -x else x)) = true) : RT sc (realE x) := by
+theorem rt_realE {sc x} (h : numShape (reprFloat (if x < 0 then -x else x)) = true) : RT sc (realE x) := by
   unfold realE
   by_cases hx : x < 0
   · simp only [hx, if_true] at h ⊢
@@ -221,21 +221,24 @@ theorem rt_realE {sc x} (h : numShape (fmtFloat16 (if x < 0 then -x else x)) = t
   · simp only [hx, if_false] at h ⊢
     exact rt_litF (by simp [wfC, litShapeOK, hx, h])
 
-theorem tk_realE {sc x} (h : numShape (fmtFloat16 (if x < 0 then -x else x)) = true) :
-    tk sc (realE x) = toks (numPieces (fmtFloat16 x)) := by
+theorem tk_realE {sc x} (h : numShape (reprFloat (if x < 0 then -x else x)) = true) :
+    tk sc (realE x) = toks (numPieces (reprFloat x)) := by
   unfold realE
   by_cases hx : x < 0
   · simp only [hx, if_true] at h ⊢
     have h0 : x ≠ 0 := by grind
     have h1 : ¬ (-x < 0) := by grind
     have h2 : -x ≠ 0 := by grind
-    have e1 : fmtFloat16 x = '-' :: fmtPos16 (-x) := by simp [fmtFloat16, h0, hx]
-    have e2 : fmtFloat16 (-x) = fmtPos16 (-x) := by simp [fmtFloat16, h1, h2]
+    have e1 : reprFloat x = '-' :: reprPos true (-x) := by simp [reprFloat, h0, hx]
+    have e2 : reprFloat (-x) = reprPos true (-x) := by simp [reprFloat, h1, h2]
     obtain ⟨c, r, hcr, hc⟩ := numShape_head h
-    have t1 : tk sc (.litF (-x) 0 false) = toks (numPieces (fmtFloat16 (-x))) := by
+    have t1 : tk sc (.litF (-x) 0 false) = toks (numPieces (reprFloat (-x))) := by
       simp [tk, tokExprC, piecesC, cNumber]
-    have t2 : numPieces ('-' :: fmtPos16 (-x)) = [pp .minus, .t (.num (String.ofList (fmtPos16 (-x))))] := rfl
-    rw [tk_neg, t1, e1, t2, hcr, numPieces_pos hc, ← e2, hcr]
+    have t2 : numPieces ('-' :: reprPos true (-x)) = [pp .minus, .t (.num (String.ofList (reprPos true (-x))))] := rfl
+    have hsw : startsWith '-' (piecesC sc (.litF (-x) 0 false)) = false := by
+      simp [startsWith, piecesC, cNumber, hcr, numPieces_pos hc, render, Tok.text, hc]
+    have hp3 : decide (precF (Expr.litF (-x) 0 false) ≥ 3) = false := rfl
+    rw [tk_neg, hsw, hp3, t1, e1, t2, hcr, numPieces_pos hc, ← e2, hcr]
     rfl
   · simp only [hx, if_false] at h ⊢
     simp [tk, tokExprC, piecesC, cNumber]
@@ -252,15 +255,15 @@ theorem rt_complex {sc re im} (hwf : wfC sc (.litF re im true) = true) : RT sc (
   obtain ⟨hre, him⟩ := hwf
   let X : Expr := .bin .add (realE re) (.bin .mul (.sym "I" .scalar) (realE im))
   have hX : RT sc X := rt_bin (rt_realE hre) (rt_bin rt_sym (rt_realE him))
-  have htkX : tk sc X = toks (numPieces (fmtFloat16 re)) ++ .p .plus :: .id "I" :: .p .star ::
-      toks (numPieces (fmtFloat16 im)) := by
+  have htkX : tk sc X = toks (numPieces (reprFloat re)) ++ .p .plus :: .id "I" :: .p .star ::
+      toks (numPieces (reprFloat im)) := by
     have p1 := realE_prec_lt re
     have p2 := realE_prec_lt im
     simp only [X, tk_bin, tk_sym, tk_realE hre, tk_realE him]
-    have a1 : decide ((realE re).prec ≥ BinOp.add.prec) = false := by simp [BinOp.prec]; omega
-    have a2 : decide ((realE im).prec ≥ BinOp.mul.prec) = false := by simp [BinOp.prec]; omega
-    have a3 : decide ((Expr.sym "I" DType.scalar).prec ≥ BinOp.mul.prec) = false := rfl
-    have a4 : decide ((Expr.bin BinOp.mul (Expr.sym "I" DType.scalar) (realE im)).prec ≥ BinOp.add.prec) = false := rfl
+    have a1 : decide ((precF (realE re)) ≥ BinOp.add.prec) = false := by simp [BinOp.prec]; omega
+    have a2 : decide ((precF (realE im)) ≥ BinOp.mul.prec) = false := by simp [BinOp.prec]; omega
+    have a3 : decide ((precF (Expr.sym "I" DType.scalar)) ≥ BinOp.mul.prec) = false := rfl
+    have a4 : decide ((precF (Expr.bin BinOp.mul (Expr.sym "I" DType.scalar) (realE im))) ≥ BinOp.add.prec) = false := rfl
     rw [a1, a2, a3, a4]
     simp [parenT, opTok]
   have htk : tk sc (.litF re im true) = .p .lpar :: (tk sc X ++ [.p .rpar]) := by
@@ -276,7 +279,7 @@ theorem rt_complex {sc re im} (hwf : wfC sc (.litF re im true) = true) : RT sc (
     rw [her]
     simp only [List.cons_append, List.append_assoc, List.nil_append]
     exact paren_un hX hps (by omega)
-  have hprec : (Expr.litF re im true).prec ≤ 2 := by simp [Expr.prec]
+  have hprec : (precF (Expr.litF re im true)) ≤ 2 := by simp [precF, Expr.prec]
   have hbin := bin_of_un hprec hun
   exact ⟨full_of_bin (by omega) hbin, fun _ => hbin, fun _ => hun, ⟨_, _, htk, by decide⟩⟩
 
@@ -314,26 +317,16 @@ theorem wfLC_mem {sc} {x : Expr} {l : List Expr} (hl : wfLC sc l = true) (h : x 
     | head => exact hl.1
     | tail _ h' => exact ih hl.2 h'
 
-/-- a subscript: a MultiIndex standing for its global index, or an expression -/
-theorem wfIxC_mem {sc} {x : Expr} {l : List Expr} (hl : wfIxC sc l = true) (h : x ∈ l) :
-    (∃ s z gi, x = .mi s z gi ∧ wfC sc gi = true) ∨ wfC sc x = true := by
-  induction l with
-  | nil => cases h
-  | cons a as ih =>
-    have key : ((∃ s z gi, a = .mi s z gi ∧ wfC sc gi = true) ∨ wfC sc a = true) ∧ wfIxC sc as = true := by
-      cases a <;> simp only [wfIxC, Bool.and_eq_true] at hl
-      case mi s z gi => exact ⟨Or.inl ⟨s, z, gi, rfl, hl.1⟩, hl.2⟩
-      all_goals exact ⟨Or.inr hl.1, hl.2⟩
-    cases h with
-    | head => exact key.1
-    | tail _ h' => exact ih key.2 h'
-
-theorem fullRT_mi {sc s z gi} (h : RT sc gi) : FullRT sc (.mi s z gi) := by
-  intro rest F hc hF
-  rw [tk_mi] at hF ⊢
-  have : eraseC sc (.mi s z gi) = eraseC sc gi := by simp [eraseC]
-  rw [this]
-  exact h.full rest F hc hF
+/-- a MultiIndex is printed, erased and bound exactly like its global index -/
+theorem rt_mi {sc s z gi} (h : RT sc gi) : RT sc (.mi s z gi) := by
+  have e1 : tk sc (.mi s z gi) = tk sc gi := tk_mi sc s z gi
+  have e2 : eraseC sc (.mi s z gi) = eraseC sc gi := by simp [eraseC]
+  have e3 : precF (.mi s z gi) = precF gi := by simp [precF]
+  refine ⟨?_, ?_, ?_, ?_⟩
+  · rw [e1, e2]; exact h.full
+  · rw [e1, e2, e3]; exact h.bin
+  · rw [e1, e2, e3]; exact h.un
+  · rw [e1]; exact h.hd
 
 theorem rt_all (sc : Scalar) : ∀ n e, esize e ≤ n → wfC sc e = true → RT sc e := by
   intro n
@@ -350,7 +343,9 @@ theorem rt_all (sc : Scalar) : ∀ n e, esize e ≤ n → wfC sc e = true → RT
       | true => exact rt_complex hwf
     | litI v => exact rt_litI hwf
     | sym nm dt => exact rt_sym
-    | mi s z gi => simp [wfC] at hwf
+    | mi s z gi =>
+      simp only [esize] at hsz; simp only [wfC] at hwf
+      exact rt_mi (ih gi (by omega) hwf)
     | neg a =>
       simp only [esize] at hsz; simp only [wfC] at hwf
       exact rt_neg (ih a (by omega) hwf)
@@ -389,12 +384,7 @@ theorem rt_all (sc : Scalar) : ∀ n e, esize e ≤ n → wfC sc e = true → RT
       cases ix with
       | nil => simp at hwf
       | cons a as =>
-        refine rt_idx (fun x hx => ?_)
-        have hsx := esize_mem hx
-        rcases wfIxC_mem hwf.2 hx with ⟨s, z, gi, rfl, hgi⟩ | hx'
-        · simp only [esize] at hsx
-          exact fullRT_mi (ih gi (by omega) hgi)
-        · exact (ih x (by omega) hx').full
+        exact rt_idx (fun x hx => (ih x (by have := esize_mem hx; omega) (wfLC_mem hwf.2 hx)).full)
     | cond c t f =>
       simp only [esize] at hsz; simp only [wfC, Bool.and_eq_true] at hwf
       exact rt_cond (ih c (by omega) hwf.1.1) (ih t (by omega) hwf.1.2) (ih f (by omega) hwf.2)
